@@ -52,6 +52,16 @@ claim("C20", "runtime monitoring: BeginBlocker bracketed with full decoded bank-
       "See notes/reports/C20.md. Generated params over everything validation accepts, pools that are empty / smaller than the reward / multi-denomination / running dry, enable/disable and param changes between blocks, unrelated bank traffic; pool decreases and fee collector increases by exactly min(reward_d, remaining_d), nothing else moves, supply unchanged, nothing moves when disabled or empty.",
       "Only the bank store is compared around BeginBlocker.")
 
+claim("C10", "runtime monitoring: reference model (stored header set + head) over generated header trees in random topological submission orders with field mutants; recorded main-net headers for the proof-of-work rule",
+      "See notes/reports/C10.md. Rinkeby-mode trees (branching 1-3, depth <= 12, competing branches, re-submission, children of non-head headers) and single-field mutants; accept iff parent stored and the time/gas-limit/EIP-1559 rules hold (base fee computed independently of the repository); head = last accepted; consensus states on the head's ancestry = ancestors' roots; every valid child of any stored header accepted. Main-net headers with full ethash verification, seal-relevant mutants rejected.",
+      "Difficulty rule for chain id 1 cannot be separated from the seal (valid PoW headers with another difficulty cannot be generated).")
+claim("C14", "runtime monitoring: differential replay of a recorded ABCI request stream in independent OS processes under an environment matrix + Go race detector pass with concurrent CheckTx/queries",
+      "A history exercising every teleport message, EVM hook and proposal type (all client proposals for TM/BSC/ETH/TSS, all aggregate proposals, param change, XIBC traffic with every ack outcome, conversions, staking/gov system contracts, vesting blocks, TM/BSC/ETH(Rinkeby + main-net PoW)/TSS updates) is recorded on a chain driven only through ABCI from genesis; 6 (quick) / 16 (thorough, 3 scenarios) child processes replay the tape under different GOMAXPROCS, GOGC, TMPDIR/HOME (incl. missing), TZ/locale, cwd, start delay and inter-block sleeps (fresh map seeds per process) and must report identical app hashes, begin/end-block results and per-tx code/data/gas/events. The same tape is replayed under -race while 4 goroutines issue CheckTx and queries; a race whose accessing frame is in teleport code is a violation.",
+      "The AST observation point of the property is outside this family. Races whose accesses are inside cosmos-sdk/ethermint/iavl are listed, not judged. ICS-20 receive is not part of the scenario.", "exploration")
+claim("C16", "runtime monitoring: differential oracle (middleware vs. wrapped transfer module on twin branches) + full-stack IBC ack-store check + conversion atomicity from balance deltas",
+      "See notes/reports/C16.md. Three teleport chains under ibc-go's testing package; ICS-20 packets over registered/unregistered denominations, enabled/disabled/paused/self-destructed pairs, malicious tokens, hostile receivers/amounts, native coins returning home, malformed data; middleware and wrapped module must return the same acknowledgement; after MsgRecvPacket the ack store holds exactly the transfer application's ack; receiver ends fully converted or untouched.",
+      "Receivers with 32-byte addresses are counted, not judged (statement does not pin the EVM account).")
+
 # optional per-agent additions are appended by later edits of this file
 exec(open('/verif/scripts/manifest_more.py').read()) if __import__('os').path.exists('/verif/scripts/manifest_more.py') else None
 
